@@ -187,10 +187,16 @@ def initStart (v : Variant) (S adh cur : Nat) : Nat :=
     | .asShipped => (cur + (S - 1)) / S
     | .sound => (cur / S + 1) * S
 
+/-- `GetOrSetFilterStart`: the persisted value if there is one, else the initial value (which is then persisted) -/
+def filterStartOf (v : Variant) (S adh : Nat) (key : Option Nat) (cur : Nat) : Nat :=
+  match key with
+  | some k => k
+  | none => initStart v S adh cur
+
 /-- `LoadBloomBits` on a freshly constructed `BlockStore` -/
 def loadBloomBits (v : Variant) (S adh : Nat) (store : Store) : St :=
   let cur := match store.cur with | some c => c | none => 0
-  let start := match store.filterKey with | some k => k | none => initStart v S adh cur    -- GetOrSetFilterStart
+  let start := filterStartOf v S adh store.filterKey cur
   let store1 := { store with filterKey := some start }
   if cur < start then ⟨⟨start, ∅⟩, store1⟩
   else
